@@ -176,6 +176,8 @@ claim(
     "mocks hold different Arcs [K-full]; new_call_pattern moves the ordered slot cursor only for ordered patterns, push on a new "
     "method registers exactly that pattern, finish hands the lists over unchanged [K-full]; the first-match scan depends only on the "
     "called method's own list [K-bnd, shared with C01]; lemma commuting_clauses over those contracts: swapping two adjacent clauses "
-    "of different methods, not both ordered, changes no method's pattern list and no ordered range [V].",
+    "of different methods, not both ordered, changes no method's pattern list and no ordered range [V]; every tuple Clause impl (arity 2..16) "
+    "hands its members to the assembler in index order, so flat, nested and padded layouts of the same clauses assemble identically [K-full]; "
+    "teardown's verdict does not depend on handles the instance itself holds (delegation helper, value chain released before the count is judged) [V].",
     trusted=["map semantics of BTreeMap keyed by TypeId (std); distinct generic instantiations have distinct TypeIds (language)", "eval reads a Unimock only through shared_state (reviewed; not an obligation)", "the std BTreeMap entry API is a stand-in with assumed contracts in Tier V (CBMC cannot reach the occupied-entry path)"],
 )
